@@ -187,11 +187,60 @@ def selMesh (m : Mesh) (dim : String) (arg : SelArg) : M Mesh :=
 
 /-! ## `Field.sel` -/
 
-/-- the `Field(...)` call at the end of every operation: the value array and the mask must
-have the shape of the mesh -/
+/-- the `vdims` setter as `Field.__init__` runs it on the labels handed over by an operation
+(`vdims=self.vdims`): no labels -> the default labels of the component count, an empty list ->
+no labels, otherwise length and uniqueness tests.  (The `hasattr` name-clash test is not
+modelled: the labels come from an existing field, which passed it.) -/
+def ctorVdims (k : Nat) : Option (List String) → M (Option (List String))
+  | none => .ok (Fld.defaultVdims k)
+  | some [] => .ok none
+  | some (x :: l) =>
+    if (x :: l).length ≠ k then .error .value
+    else if hasDup (x :: l) then .error .value
+    else .ok (some (x :: l))
+
+/-- the `vdim_mapping` setter run on the source's dictionary (`vdim_mapping=self.vdim_mapping`,
+never `None`): a one-entry dictionary of an unlabelled scalar field is emptied; a non-empty
+dictionary must have exactly the labels as keys (`sorted(keys) != sorted(vdims)` -> `ValueError`,
+`sorted(None)` -> `TypeError`); otherwise it is stored as it is — also when it names an axis
+the result no longer has. -/
+def ctorVmap (k : Nat) (vd : Option (List String)) (vm : List (String × String)) :
+    M (List (String × String)) :=
+  if vm.length = 1 ∧ k = 1 ∧ vd = none then .ok []
+  else if vm.length = 0 then .ok vm
+  else
+    match vd with
+    | none => .error .type
+    | some l => if (vm.map (·.1)).isPerm l then .ok vm else .error .value
+
+/-- labels and mapping of the result of an operation on `f` (both setters, in the order of
+`Field.__init__`) -/
+def ctorMeta (f : Fld) : M (Option (List String) × List (String × String)) :=
+  match ctorVdims f.nvdim f.vdims with
+  | .error e => .error e
+  | .ok vd =>
+    match ctorVmap f.nvdim vd f.vmap with
+    | .error e => .error e
+    | .ok vm => .ok (vd, vm)
+
+def metaOk (f : Fld) : Bool :=
+  match ctorMeta f with
+  | .ok _ => true
+  | .error _ => false
+
+def metaOf (f : Fld) : Option (List String) × List (String × String) :=
+  match ctorMeta f with
+  | .ok p => p
+  | .error _ => (f.vdims, f.vmap)
+
+/-- the `Field(mesh, nvdim=self.nvdim, value=…, vdims=self.vdims, unit=self.unit, valid=…,
+vdim_mapping=self.vdim_mapping)` call at the end of every operation: the value array and the
+mask must have the shape of the mesh, the label and mapping setters must accept; component
+count and unit are handed over unchanged -/
 def mkFld (m : Mesh) (f : Fld) (data : NDA (List Rat)) (valid : NDA Bool) : M Fld :=
-  if data.shape ≠ m.n ∨ valid.shape ≠ m.n then .error .value
-  else .ok { f with mesh := m, data := data, valid := valid }
+  if data.shape ≠ m.n ∨ valid.shape ≠ m.n ∨ metaOk f = false then .error .value
+  else .ok { f with mesh := m, data := data, valid := valid,
+                    vdims := (metaOf f).1, vmap := (metaOf f).2 }
 
 inductive SelOut where
   | field (f : Fld)
@@ -419,5 +468,32 @@ def resample (f : Fld) (n : List Int) : M Fld :=
     | .ok m =>
       if !f.mesh.region.containsReg m.region then .error .value
       else mkFld m f (resampleNDA f.mesh m f.data) (resampleNDA f.mesh m f.valid)
+
+/-! ## element type of the result's value array -/
+
+/-- numpy dtype kinds `b`, `i` (also `u`), `f`, `c` -/
+inductive DKind where
+  | bool | int | float | complex
+  deriving Repr, DecidableEq
+
+/-- `dtype or max(np.asarray(val).dtype, np.float64)` of `_as_array` on an array, reduced to
+kinds (everything that casts safely to `float64` becomes `float64`, complex stays complex) -/
+def asArrayKind (dtype : Option DKind) (val : DKind) : DKind :=
+  match dtype with
+  | some d => d
+  | none => match val with
+    | .complex => .complex
+    | _ => .float
+
+inductive OpFam where
+  | sel | getitem | pad | resample
+  deriving Repr, DecidableEq
+
+/-- kind of the result's value array for a source array of kind `k`: `sel`, `__getitem__` and
+`pad` hand an array to the constructor without a `dtype`; `resample` hands the field itself,
+and the field branch of `_as_array` returns the looked-up values as they are -/
+def resultKind : OpFam → DKind → DKind
+  | .resample, k => k
+  | _, k => asArrayKind none k
 
 end DFV.C07
